@@ -28,17 +28,17 @@ type tierCfg struct {
 // budgets per property and tier; sized from measured throughput so that quick
 // stays around a minute on 16 cores and thorough around a quarter of an hour.
 var budgets = map[string]map[string]tierCfg{
-	"C01": {"quick": {Runs: 1200000, CapS: 90, DetSeeds: 32, ShrinkS: 20}, "thorough": {Runs: 16000000, CapS: 1200, DetSeeds: 512, ShrinkS: 60}},
-	"C02": {"quick": {Runs: 180000, CapS: 90, DetSeeds: 32, ShrinkS: 20}, "thorough": {Runs: 3000000, CapS: 1200, DetSeeds: 512, ShrinkS: 60}},
-	"C03": {"quick": {Runs: 360000, CapS: 90, DetSeeds: 32, ShrinkS: 20}, "thorough": {Runs: 6000000, CapS: 1200, DetSeeds: 512, ShrinkS: 60}},
-	"C04": {"quick": {Runs: 360000, CapS: 90, DetSeeds: 32, ShrinkS: 20}, "thorough": {Runs: 6000000, CapS: 1200, DetSeeds: 512, ShrinkS: 60}},
+	"C01": {"quick": {Runs: 1000000, CapS: 90, DetSeeds: 32, ShrinkS: 20}, "thorough": {Runs: 16000000, CapS: 1200, DetSeeds: 512, ShrinkS: 60}},
+	"C02": {"quick": {Runs: 120000, CapS: 90, DetSeeds: 32, ShrinkS: 20}, "thorough": {Runs: 3000000, CapS: 1200, DetSeeds: 512, ShrinkS: 60}},
+	"C03": {"quick": {Runs: 280000, CapS: 90, DetSeeds: 32, ShrinkS: 20}, "thorough": {Runs: 6000000, CapS: 1200, DetSeeds: 512, ShrinkS: 60}},
+	"C04": {"quick": {Runs: 300000, CapS: 90, DetSeeds: 32, ShrinkS: 20}, "thorough": {Runs: 6000000, CapS: 1200, DetSeeds: 512, ShrinkS: 60}},
 	"C05": {"quick": {Runs: 700000, CapS: 90, DetSeeds: 32, ShrinkS: 20}, "thorough": {Runs: 12000000, CapS: 1200, DetSeeds: 512, ShrinkS: 60}},
-	"C06": {"quick": {Runs: 90000, CapS: 90, DetSeeds: 32, ShrinkS: 20}, "thorough": {Runs: 1500000, CapS: 1200, DetSeeds: 512, ShrinkS: 60}},
-	"C07": {"quick": {Runs: 40000, CapS: 90, DetSeeds: 32, ShrinkS: 20, RaceRuns: 6000}, "thorough": {Runs: 700000, CapS: 1200, DetSeeds: 512, ShrinkS: 60, RaceRuns: 100000}},
-	"C08": {"quick": {Runs: 90000, CapS: 90, DetSeeds: 32, ShrinkS: 20, RaceRuns: 12000}, "thorough": {Runs: 1500000, CapS: 1200, DetSeeds: 512, ShrinkS: 60, RaceRuns: 200000}},
-	"C10": {"quick": {Runs: 180000, CapS: 90, DetSeeds: 32, ShrinkS: 20}, "thorough": {Runs: 3000000, CapS: 1200, DetSeeds: 512, ShrinkS: 60}},
+	"C06": {"quick": {Runs: 70000, CapS: 90, DetSeeds: 32, ShrinkS: 20}, "thorough": {Runs: 1500000, CapS: 1200, DetSeeds: 512, ShrinkS: 60}},
+	"C07": {"quick": {Runs: 60000, CapS: 90, DetSeeds: 32, ShrinkS: 20, RaceRuns: 9000}, "thorough": {Runs: 700000, CapS: 1200, DetSeeds: 512, ShrinkS: 60, RaceRuns: 100000}},
+	"C08": {"quick": {Runs: 70000, CapS: 90, DetSeeds: 32, ShrinkS: 20, RaceRuns: 10000}, "thorough": {Runs: 1500000, CapS: 1200, DetSeeds: 512, ShrinkS: 60, RaceRuns: 200000}},
+	"C10": {"quick": {Runs: 150000, CapS: 90, DetSeeds: 32, ShrinkS: 20}, "thorough": {Runs: 3000000, CapS: 1200, DetSeeds: 512, ShrinkS: 60}},
 	"C11": {"quick": {Runs: 500000, CapS: 90, DetSeeds: 32, ShrinkS: 20}, "thorough": {Runs: 8000000, CapS: 1200, DetSeeds: 512, ShrinkS: 60}},
-	"C12": {"quick": {Runs: 700000, CapS: 90, DetSeeds: 32, ShrinkS: 20}, "thorough": {Runs: 12000000, CapS: 1200, DetSeeds: 512, ShrinkS: 60}},
+	"C12": {"quick": {Runs: 600000, CapS: 90, DetSeeds: 32, ShrinkS: 20}, "thorough": {Runs: 12000000, CapS: 1200, DetSeeds: 512, ShrinkS: 60}},
 }
 
 func budget(prop, tier string) tierCfg {
@@ -120,16 +120,21 @@ func DriverMain(args []string) int {
 		fmt.Println("determinism self-test diverged: same run indices gave different traces in different processes")
 	}
 
+	tDet := time.Since(t0).Seconds()
 	// 2. seeded search
 	agg, code := search(prop, tier, base, cfg, workers, tmp, os.Getenv("VERIF_SELF"))
 	if code != 0 {
 		return code
 	}
+	tSearch := time.Since(t0).Seconds() - tDet
 	if hook, ok := extraPhases[prop]; ok {
 		if c := hook(prop, tier, base, cfg, workers, tmp, agg); c != 0 {
 			return c
 		}
 	}
+	tExtra := time.Since(t0).Seconds() - tDet - tSearch
+	fmt.Printf("phases: determinism self-test %.1fs, search %.1fs, extra (race) %.1fs\n", tDet, tSearch, tExtra)
+	agg.Extra["phase_wall_s"] = map[string]float64{"determinism_self_test": tDet, "search": tSearch, "race_phase": tExtra}
 
 	// 3. violations: shrink, classify, report
 	exit := 0
